@@ -57,7 +57,10 @@ RULE = ('history = 2-25 generated operations, about 40% of the writes failing (m
         'not the first of its update, or a batch fails in an element that is not the first; '
         'distinct = by hash of the history')
 ASSUMPTIONS = [
-    'TTL-free histories (expiry is C09); positional $ paths unmodelled',
+    'TTL-free histories (expiry is C09)',
+    'these histories draw no positional $ paths (the positional operator is modelled '
+    'and judged under C02); a step the model '
+    'answers unmodelled for cuts the history there',
     'error classes compared: DuplicateKeyError, WriteError, BulkWriteError(details), '
     'NotImplementedError; every other exception only as "raised"',
 ]
